@@ -54,6 +54,9 @@ type Workload struct {
 	APIRef     bool              `json:"api_reference"`
 	Debug      bool              `json:"debug"`
 	Params     map[string]string `json:"params,omitempty"`
+	// CLIParams, when set, are the parameters given on the command line (codegen.Parameters)
+	// instead of a copy of Params: they may override and refer to those of the file.
+	CLIParams map[string]string `json:"cli_params,omitempty"`
 	TplData    map[string]string `json:"templates_data,omitempty"`
 	RepoTpl    string            `json:"repository_templates,omitempty"`
 	OutputDir  string            `json:"output_dir,omitempty"` // default "out/%l"
@@ -93,6 +96,12 @@ func (w *Workload) Clone() *Workload {
 		}
 	}
 	c.FinalPasses = append([]string(nil), w.FinalPasses...)
+	if w.CLIParams != nil {
+		c.CLIParams = map[string]string{}
+		for k, v := range w.CLIParams {
+			c.CLIParams[k] = v
+		}
+	}
 	if w.Params != nil {
 		c.Params = map[string]string{}
 		for k, v := range w.Params {
@@ -106,6 +115,14 @@ func (w *Workload) Clone() *Workload {
 		}
 	}
 	return &c
+}
+
+// ExtraParams is what the run passes to codegen.Parameters.
+func (w *Workload) ExtraParams() map[string]string {
+	if w.CLIParams != nil {
+		return w.CLIParams
+	}
+	return w.Params
 }
 
 func (w *Workload) Fingerprint() string {
